@@ -98,9 +98,6 @@ theorem evict_preserves {c : Ctx} {p : Pool} {t : Tx}
   intro x hx
   exact h.2 x (List.mem_filter.mp hx).1
 
-/-! ### witness 1 (DESIGN §9 item 7)
-(definitions first; the non-vacuity example of `evict_preserves` follows them) -/
-
 /-! ### witness 1 (DESIGN §9 item 7): a child with parents in two buckets -/
 
 def od (id v : Nat) : GV.Chain.OutDef := { id, cb := false, v }
